@@ -22,7 +22,12 @@ W = "_core:WebSocket"
 
 
 def _send_stub(I, run, args, kwargs, node):
-    run.effect("send", args[1:], kwargs, node=node)
+    kw = dict(kwargs)
+    try:
+        kw["@connected"] = run.cell(args[0]).fields.get("connected", NONE)   # the typestate at the moment the write begins
+    except Exception:
+        pass
+    run.effect("send", args[1:], kw, node=node)
     return Sym("nbytes", "int")
 
 
@@ -154,7 +159,7 @@ def r2(ctx):
                {"path": path_text(bad[1] if bad else silent)} if (bad or silent) else None)
 
 
-@rule("R-C08-3", min_instances=4, title="at most one close frame per connection: a close frame is written only while still connected, and marks the object unconnected")
+@rule("R-C08-3", min_instances=6, title="at most one close frame per connection: a close frame is written only while still connected, and marks the object unconnected")
 def r3(ctx):
     I = _interp(ctx)
     # (a) the two API entry points, from both typestates
@@ -174,6 +179,14 @@ def r3(ctx):
                        f"{len(outs)} paths: exactly one close frame each, connected=False afterwards" if ok else
                        f"close frames per path {sorted(set(per_path))}, connected afterwards {sorted(after)}",
                        ctx.index.loc(ctx.index.func(q).node))
+                # "a close frame has been started" is recorded BEFORE the write begins: a write that fails half-way, or is still in
+                # flight when another thread calls close(), must not be followed by a second close frame
+                late = [(e, o) for e, o in sends if e.kwargs.get("@connected") != FALSE]
+                ctx.ob(f"{q}:connected:marked-unconnected-before-the-write", not late,
+                       "connected is already False when the close frame's write begins" if not late else
+                       f"{name}() starts writing its close frame while the object still says connected={late[0][0].kwargs.get('@connected')!r}: if that write fails part-way "
+                       "(or another thread calls close() meanwhile) a second close frame follows the first",
+                       late[0][0].loc if late else ctx.index.loc(ctx.index.func(q).node), {"path": path_text(late[0][1])} if late else None)
             else:
                 ok = not sends
                 ctx.ob(f"{q}:unconnected:no-second-frame", ok,
